@@ -74,7 +74,6 @@ func runPutOnStack(p *core.Prog) *core.Result {
 	return res
 }
 
-
 // flaggedFuncs: the implementations of the compiledExpr methods whose last parameter is the
 // putOnStack flag, plus every module function that receives a flag-derived argument from one of
 // them (transitively). Result: function -> set of indexes into Params.
